@@ -154,13 +154,13 @@ def err {α} (cls tag : String) : Except Err α := .error ⟨cls, tag⟩
 def defaultColumnTNames (d : Dialect) (attr : Name) : Option (List Name) → List (TName d)
   | none => [TName.norm d attr]
   | some [_] => [TName.norm d attr]
-  | some cols => cols.map (fun c => TName.norm d (attr ++ str "_" ++ c))
+  | some cols => cols.map (fun c => TName.norm d (attr ++ sU ++ c))
 
 /-- `get_default_m2m_column_names` with provenance -/
 def defaultM2mColumnTNames (d : Dialect) (ent : Name) (pkCols : List Name) : List (TName d) :=
   match pkCols with
   | [_] => [TName.norm d (lower ent)]
-  | cols => cols.map (fun c => TName.norm d (lower ent ++ str "_" ++ c))
+  | cols => cols.map (fun c => TName.norm d (lower ent ++ sU ++ c))
 
 /-- `EntityMeta._get_pk_columns_`, parametrised by `Attribute.get_columns` (the two are mutually recursive in Pony) -/
 def pkColumnsWith {d} (D : Decls) (get : St d → Name → Attr → Except Err (List (TName d) × St d)) (st : St d) (e : Entity) :
@@ -242,14 +242,14 @@ def getM2mColumns (D : Decls) (d : Dialect) (fuel : Nat) (st : St d) (owner : En
               if sym then
                 let rc := curRCols st owner.name a
                 if rc = [] then
-                  let rc : List (TName d) := cols.map (fun c => TName.suffixed (c.n ++ str "_2"))
+                  let rc : List (TName d) := cols.map (fun c => TName.suffixed (c.n ++ sU2))
                   let st := { st with rcols := ((owner.name, a.name), rc) :: st.rcols }
                   .ok (if isReverse then rc else cols, st)
                 else if rc.length ≠ pkc.length then err "MappingError" "invalid-number-of-reverse-columns"
                 else .ok (if isReverse then rc else cols, st)
               else
                 let rcur := curCols st tgt r
-                let rcols : List (TName d) := if rcur = [] then cols.map (fun c => TName.suffixed (c.n ++ str "_2")) else rcur
+                let rcols : List (TName d) := if rcur = [] then cols.map (fun c => TName.suffixed (c.n ++ sU2)) else rcur
                 let st := setChecked (setCols st tgt r rcols) tgt r
                 .ok (if isReverse then rcols else cols, st)
         else if isChecked st owner.name a then .ok (curCols st tgt r, st)
@@ -272,9 +272,9 @@ def digits (k : Nat) : Name := Nat.toDigits 10 k
 
 /-- `while m2m_table is not None: new_table_name = table_name + '_%d' % next(seq_counter)` (counter from 2) -/
 def suffixSearch (s : Schema) (base : Name) : Nat → Nat → Name
-  | 0, k => base ++ str "_" ++ digits k
+  | 0, k => base ++ sU ++ digits k
   | fuel + 1, k =>
-    let cand := base ++ str "_" ++ digits k
+    let cand := base ++ sU ++ digits k
     if (findTable s cand).isSome then suffixSearch s base fuel (k + 1) else cand
 
 /-- the many-to-many branch of the first loop of `generate_mapping` (core.py:1003-1044) -/
@@ -291,7 +291,7 @@ def processM2m (D : Decls) (d : Dialect) (fuel : Nat) (st : St d) (e : Entity) (
       | some x, none => .ok (x, true)
       | some x, some y => if x.n ≠ y.n then err "MappingError" "m2m-table-mismatch" else .ok (x, true)
       | none, some y => .ok (y, true)
-      | none, none => .ok (TName.norm d (if symmetric e.name a then e.name ++ str "_" ++ a.name else e.name ++ str "_" ++ tgt), false)
+      | none, none => .ok (TName.norm d (if symmetric e.name a then e.name ++ sU ++ a.name else e.name ++ sU ++ tgt), false)
     match pick with
     | .error x => .error x
     | .ok (tn, custom) =>
